@@ -438,9 +438,17 @@ func (proj *Project) loadTargetInfo(label *label.Label) (targetInfo, error) {
 	}
 	defer f.Close()
 
+	// A record is exactly one JSON object with the fields of targetInfo. Anything else is a damaged file: a decoder that
+	// skipped unknown keys or stopped at the end of the first value would read a record whose re-run mark has been lost
+	// as a clean one.
+	dec := json.NewDecoder(f)
+	dec.DisallowUnknownFields()
 	var info targetInfo
-	if err := json.NewDecoder(f).Decode(&info); err != nil {
+	if err := dec.Decode(&info); err != nil {
 		return targetInfo{}, err
+	}
+	if _, err := dec.Token(); err != io.EOF {
+		return targetInfo{}, fmt.Errorf("%v: unexpected data after the record", path)
 	}
 	return info, nil
 }
